@@ -30,7 +30,7 @@ package vm
 //verif:bound long-argument Verify (VerifC06VerifyWide): argument list {long, 1 byte} decoded by the real ReadVarstrList from one buffer, 9 programs (SWAP 1ADD, ADD, 0NOTEQUAL, LEFT, SWAP RIGHT, OVER LESSTHAN, DUP 1 <1ADD> 0 CHECKPREDICATE, SWAP PICK, 1 LSHIFT), gas 10000
 //verif:assume context callbacks: TxSigHash returns a fixed arbitrary 32-byte value, CheckOutput returns fixed arbitrary (ok, err) -- the same for both runs
 //verif:assume hash functions and ed25519.Verify are uninterpreted functions of the byte values
-//verif:outside MUL/DIV/MOD with the long item as the deeper (left) operand (256-bit by 8-bit product/quotient is beyond the solver; the long item as right operand and as single operand is covered); layouts spanning more than two caller buffers, items of 4..30 bytes and above 33 bytes, data stacks deeper than 4 in the step lemma; CHECKPREDICATE child programs outside the menu; Verify programs outside the menu (the step lemma is the general argument, Verify is the end-to-end cross-check); the trace writer (TraceOut != nil); inside the region of KF-C06-CAT-APPEND other causes of the same assertion failures are not distinguished (the region is exact for the step lemma and CHECKPREDICATE, and 'program contains CAT/CATPUSHDATA' at the Verify level)
+//verif:outside MUL/DIV/MOD with the long item as the deeper (left) operand, and as right operand with fully arbitrary content (256-bit by 8-bit product/quotient is beyond the solver; right operand with the quick content pattern and single operand are covered); Verify-level SWAP PICK with fully arbitrary long content (the recovered runtime panic's Error() text is not encodable; the step lemma covers that exit through a recover wrapper); layouts spanning more than two caller buffers, items of 4..30 bytes and above 33 bytes, data stacks deeper than 4 in the step lemma; CHECKPREDICATE child programs outside the menu; Verify programs outside the menu (the step lemma is the general argument, Verify is the end-to-end cross-check); the trace writer (TraceOut != nil); inside the region of KF-C06-CAT-APPEND other causes of the same assertion failures are not distinguished (the region is exact for the step lemma and CHECKPREDICATE, and 'program contains CAT/CATPUSHDATA' at the Verify level)
 //verif:override github.com/bytom/bytom/protocol/vm.Disassemble -> verifC06Disassemble
 //verif:obligation fn=VerifC06Step args=0,15,1,1,3;16,31,1,1,3;32,47,1,1,3;48,63,1,1,3;64,79,1,1,3;80,95,1,1,3;96,111,1,1,3;112,127,1,1,3;128,143,1,1,3;144,159,1,1,3;160,175,1,1,3;176,191,1,1,3;192,207,1,1,3;208,223,1,1,3;224,239,1,1,3;240,255,1,1,3 loops=300 secs=900 idx=ite
 //verif:obligation fn=VerifC06Step args=0,15,2,0,3;16,31,2,0,3;32,47,2,0,3;48,63,2,0,3;64,79,2,0,3;80,95,2,0,3;96,111,2,0,3;112,127,2,0,3;128,143,2,0,3;144,148,2,0,2;152,159,2,0,1;160,175,2,0,3;176,191,2,0,3;192,207,2,0,3;208,223,2,0,3;224,239,2,0,3;240,255,2,0,3 loops=300 secs=900 idx=ite validate=10
@@ -45,14 +45,14 @@ package vm
 //verif:obligation fn=VerifC06Predicate args=3,3 idx=ite secs=3000 tier=thorough
 //verif:obligation fn=VerifC06Verify args=0,8,3;1,8,3;2,8,3;3,8,3;4,8,3;5,8,3;6,8,3;7,8,3;8,8,3;9,8,3;10,8,3;11,8,3;12,8,3;13,8,3 secs=900 validate=10
 //verif:obligation fn=VerifC06Wide args=112,127,1,0,32,1;128,143,1,0,32,1;144,148,1,0,32,1;149,151,1,0,32,1;152,159,1,0,32,1;160,175,1,0,32,1;192,207,1,0,32,1;112,127,2,1,32,1;128,143,2,1,32,1;144,148,2,1,32,1;149,151,2,1,32,1;152,159,2,1,32,1;160,175,2,1,32,1;192,207,2,1,32,1;112,127,2,0,32,1;128,143,2,0,32,1;144,148,2,0,32,1;152,159,2,0,32,1;160,175,2,0,32,1;192,207,2,0,32,1;160,175,3,0,32,1 idx=ite secs=900 timeout=60000 validate=10
-//verif:obligation fn=VerifC06Wide args=112,127,3,0,32,1;128,143,3,0,32,1;144,148,3,0,32,1;152,159,3,0,32,1;192,207,3,0,32,1;112,127,3,1,32,1;128,143,3,1,32,1;144,148,3,1,32,1;149,151,3,1,32,1;152,159,3,1,32,1;160,175,3,1,32,1;192,207,3,1,32,1;112,127,3,2,32,1;128,143,3,2,32,1;144,148,3,2,32,1;149,151,3,2,32,1;152,159,3,2,32,1;160,175,3,2,32,1;192,207,3,2,32,1;193,193,5,0,32,1;193,193,5,1,32,1 idx=ite secs=3000 timeout=60000 tier=thorough
+//verif:obligation fn=VerifC06Wide args=112,127,3,0,32,1;128,143,3,0,32,1;144,148,3,0,32,1;152,159,3,0,32,1;192,207,3,0,32,1;112,127,3,1,32,1;128,143,3,1,32,1;144,148,3,1,32,1;152,159,3,1,32,1;160,175,3,1,32,1;192,207,3,1,32,1;112,127,3,2,32,1;128,143,3,2,32,1;144,148,3,2,32,1;149,151,3,2,32,1;152,159,3,2,32,1;160,175,3,2,32,1;192,207,3,2,32,1;193,193,5,0,32,1;193,193,5,1,32,1 idx=ite secs=3000 timeout=60000 tier=thorough
 //verif:obligation fn=VerifC06Wide args=112,127,1,0,31,1;128,143,1,0,31,1;144,148,1,0,31,1;149,151,1,0,31,1;152,159,1,0,31,1;160,175,1,0,31,1;192,207,1,0,31,1;112,127,2,1,31,1;128,143,2,1,31,1;144,148,2,1,31,1;149,151,2,1,31,1;152,159,2,1,31,1;160,175,2,1,31,1;192,207,2,1,31,1;112,127,2,0,31,1;128,143,2,0,31,1;144,148,2,0,31,1;152,159,2,0,31,1;160,175,2,0,31,1;192,207,2,0,31,1;160,175,3,0,31,1 idx=ite secs=3000 timeout=60000 tier=thorough
 //verif:obligation fn=VerifC06Wide args=112,127,1,0,33,1;128,143,1,0,33,1;144,148,1,0,33,1;149,151,1,0,33,1;152,159,1,0,33,1;160,175,1,0,33,1;192,207,1,0,33,1;112,127,2,1,33,1;128,143,2,1,33,1;144,148,2,1,33,1;149,151,2,1,33,1;152,159,2,1,33,1;160,175,2,1,33,1;192,207,2,1,33,1;112,127,2,0,33,1;128,143,2,0,33,1;144,148,2,0,33,1;152,159,2,0,33,1;160,175,2,0,33,1;192,207,2,0,33,1;160,175,3,0,33,1 idx=ite secs=3000 timeout=60000 tier=thorough
-//verif:obligation fn=VerifC06Wide args=112,127,1,0,32,0;128,143,1,0,32,0;144,148,1,0,32,0;149,151,1,0,32,0;152,159,1,0,32,0;160,175,1,0,32,0;192,207,1,0,32,0;112,127,2,1,32,0;128,143,2,1,32,0;144,148,2,1,32,0;149,151,2,1,32,0;152,159,2,1,32,0;160,175,2,1,32,0;192,207,2,1,32,0;112,127,2,0,32,0;128,143,2,0,32,0;144,148,2,0,32,0;152,159,2,0,32,0;160,175,2,0,32,0;192,207,2,0,32,0 idx=ite secs=3000 timeout=60000 tier=thorough
+//verif:obligation fn=VerifC06Wide args=112,127,1,0,32,0;128,143,1,0,32,0;144,148,1,0,32,0;149,151,1,0,32,0;152,159,1,0,32,0;160,175,1,0,32,0;192,207,1,0,32,0;112,127,2,1,32,0;128,143,2,1,32,0;144,148,2,1,32,0;152,159,2,1,32,0;160,175,2,1,32,0;192,207,2,1,32,0;112,127,2,0,32,0;128,143,2,0,32,0;144,148,2,0,32,0;152,159,2,0,32,0;160,175,2,0,32,0;192,207,2,0,32,0 idx=ite secs=3000 timeout=60000 tier=thorough
 //verif:obligation fn=VerifC06PredicateWide args=0,32,1;1,32,1;2,32,1 idx=ite secs=900 validate=10
 //verif:obligation fn=VerifC06PredicateWide args=0,31,1;1,31,1;2,31,1;0,33,1;1,33,1;2,33,1;0,32,0;1,32,0;2,32,0 idx=ite secs=3000 tier=thorough
 //verif:obligation fn=VerifC06VerifyWide args=0,32,1;1,32,1;2,32,1;3,32,1;4,32,1;5,32,1;6,32,1;7,32,1;8,32,1 secs=900 validate=10
-//verif:obligation fn=VerifC06VerifyWide args=0,31,1;1,31,1;2,31,1;3,31,1;4,31,1;5,31,1;6,31,1;7,31,1;8,31,1;0,33,1;1,33,1;2,33,1;3,33,1;4,33,1;5,33,1;6,33,1;7,33,1;8,33,1;0,32,0;1,32,0;2,32,0;3,32,0;4,32,0;5,32,0;6,32,0;7,32,0;8,32,0 secs=3000 tier=thorough
+//verif:obligation fn=VerifC06VerifyWide args=0,31,1;1,31,1;2,31,1;3,31,1;4,31,1;5,31,1;6,31,1;7,31,1;8,31,1;0,33,1;1,33,1;2,33,1;3,33,1;4,33,1;5,33,1;6,33,1;7,33,1;8,33,1;0,32,0;1,32,0;2,32,0;3,32,0;4,32,0;5,32,0;6,32,0;8,32,0 secs=3000 tier=thorough
 
 import (
 	"bytes"
@@ -152,6 +152,18 @@ func (c *verifC06Ctx) unchanged() bool {
 	return verifC06StackEq([][]byte{c.asset, c.spent, c.entry, c.sighash}, c.snap)
 }
 
+// one step the way Verify runs it: a panic inside an op function (e.g. the index panic of PICK with a
+// depth operand in [2^63, 2^64), KF-C08-PICKROLL-TRUNC) is recovered and becomes ErrUnexpected, so that
+// the memory assertions are also decided on that exit
+func verifC06StepRecovered(vm *virtualMachine) (err error) {
+	defer func() {
+		if r := recover(); r != nil {
+			err = ErrUnexpected
+		}
+	}()
+	return vm.step()
+}
+
 // compares the outcome of the aliased run (A) with the independent run (B)
 func verifC06Compare(vmA *virtualMachine, errA error, vmB *virtualMachine, errB error) bool {
 	verifObserveBool("errA", errA != nil)
@@ -216,8 +228,8 @@ func VerifC06Step(opLo int, opHi int, nData int, nAlt int, maxLen int) {
 
 	verifKnown("KF-C06-CAT-APPEND", verifC06CatRegion(Op(op), data))
 
-	errB := vmB.step()
-	errA := vmA.step()
+	errB := verifC06StepRecovered(vmB)
+	errA := verifC06StepRecovered(vmA)
 
 	verifAssert(bytes.Equal(buf, bufSnap), "caller-buffer-unchanged")
 	verifAssert(bytes.Equal(prog, progSnap), "program-unchanged")
@@ -295,8 +307,8 @@ func VerifC06Predicate(nData int, maxLen int) {
 	vmB := &virtualMachine{context: c.ctx, program: verifC06Copy(prog), runLimit: r, expansionReserved: true, dataStack: dataB}
 	vmA := &virtualMachine{context: c.ctx, program: prog, runLimit: r, expansionReserved: true, dataStack: data}
 
-	errB := vmB.step()
-	errA := vmA.step()
+	errB := verifC06StepRecovered(vmB)
+	errA := verifC06StepRecovered(vmA)
 
 	verifAssert(bytes.Equal(buf, bufSnap), "caller-buffer-unchanged")
 	verifAssert(bytes.Equal(pred, predSnap), "program-unchanged")
@@ -438,8 +450,8 @@ func VerifC06Wide(opLo int, opHi int, nData int, widePos int, wideLen int, free 
 	vmB := &virtualMachine{context: c.ctx, program: verifC06Copy(prog), runLimit: r, expansionReserved: exp, dataStack: dataB}
 	vmA := &virtualMachine{context: c.ctx, program: prog, runLimit: r, expansionReserved: exp, dataStack: data}
 
-	errB := vmB.step()
-	errA := vmA.step()
+	errB := verifC06StepRecovered(vmB)
+	errA := verifC06StepRecovered(vmA)
 
 	verifAssert(bytes.Equal(buf, bufSnap), "caller-buffer-unchanged")
 	verifAssert(bytes.Equal(big, bigSnap), "caller-long-item-buffer-unchanged")
@@ -495,8 +507,8 @@ func VerifC06PredicateWide(which int, wideLen int, free int) {
 	vmB := &virtualMachine{context: c.ctx, program: verifC06Copy(prog), runLimit: r, expansionReserved: true, dataStack: dataB}
 	vmA := &virtualMachine{context: c.ctx, program: prog, runLimit: r, expansionReserved: true, dataStack: data}
 
-	errB := vmB.step()
-	errA := vmA.step()
+	errB := verifC06StepRecovered(vmB)
+	errA := verifC06StepRecovered(vmA)
 
 	verifAssert(bytes.Equal(big, bigSnap), "caller-long-item-buffer-unchanged")
 	verifAssert(bytes.Equal(short, shortSnap), "caller-buffer-unchanged")
